@@ -42,12 +42,12 @@ SIM_NAMES = {
 # piquasso as Python callables, the string variants as expression strings; the reference evaluates the lambdas
 # directly and the strings with Python's own eval.
 COND = {
-    "l_last1": lambda x: x[-1] == 1,
-    "s_first0": "x[0] == 0",
+    "l_first0": lambda x: x[0] == 0,
+    "s_last1": "x[-1] == 1",
 }
 DYN = {
-    "c_last": lambda x: 0.3 + 0.5 * x[-1],
-    "s_first": "0.2 + 0.4 * x[0]",
+    "c_first": lambda x: 0.2 + 0.4 * x[0],
+    "s_last": "0.3 + 0.5 * x[-1]",
 }
 GATE_LETTERS = ("Gu", "Gcl", "Gcs", "Gpc", "Gps")
 
@@ -267,13 +267,13 @@ def make_gate(simkind, letter, active, pos, seed):
         op = {"k": "gate", "cls": "Phaseshifter", "modes": [active[0]], "params": {"phi": th}}
         dyn_name = "phi"
     if letter == "Gcl":
-        op["cond"] = "l_last1"
+        op["cond"] = "l_first0"
     elif letter == "Gcs":
-        op["cond"] = "s_first0"
+        op["cond"] = "s_last1"
     elif letter == "Gpc":
-        op["dyn"] = [dyn_name, "c_last"]
+        op["dyn"] = [dyn_name, "c_first"]
     elif letter == "Gps":
-        op["dyn"] = ["phi" if op["cls"] == "Beamsplitter" else dyn_name, "s_first"]
+        op["dyn"] = ["phi" if op["cls"] == "Beamsplitter" else dyn_name, "s_last"]
     if op.get("dyn"):
         op["params"] = {k: v for k, v in op["params"].items() if k != op["dyn"][0]}
     return op
@@ -617,10 +617,8 @@ def check_part(case, stats, cache=None):
             else:
                 verdicts.append((sig(c, "exception", exception=type(val).__name__), "%s measurement raised %s: %s" % (name, type(val).__name__, str(val)[:300])))
             return verdicts
-    st = ref_initial(case)
-    for lf_ops in (ref_ops(dict(case, ops=list(case.get("pre", [])))),):
-        for lf in R.run_tree(st, lf_ops):
-            st = lf.state
+    # reference: the state behind the (measurement-free) prefix, then the joint Born law of the ordered modes
+    st = R.run_tree(ref_initial(case), ref_ops(dict(case, ops=list(case.get("pre", [])))))[0].state
     ref = R.marginal_law(st, concat)
     ref = {k: v for k, v in ref.items() if v > 0}
     stats["maps_compared"] = stats.get("maps_compared", 0) + 1
@@ -642,7 +640,7 @@ def check_part(case, stats, cache=None):
                 e_j = 0.0
         if e_j > TOL:
             verdicts.append((sig(joint_case, "weights"), "joint measurement of %s differs from the Born law by %.3g at %s" % (concat, e_j, k_j)))
-    if e_s > TOL and len(blocks) > 1:
+    if (e_s > TOL or e_js > 2 * TOL) and len(blocks) > 1:
         last = blocks[-1]
         if sum(len(b) for b in blocks) == case["d"] and last != sorted(last) and e_js > TOL:
             # the last measurement covers all remaining modes: same diagnosis
@@ -700,6 +698,13 @@ def check_shots(case, stats):
     rops = ref_ops(case)
     st0 = ref_initial(case)
     n_out = sum(len(op["modes"]) for op in case["ops"] if op["k"] == "pnm")
+    # a history whose post-selection is impossible leaves a zero state; sampling from it is undefined (the Fock
+    # simulators hand random.choices all-zero weights): not a subject of the property
+    degenerate = []
+    R.run_tree(st0, rops, on_measure=lambda idx, lf, lw: degenerate.append(idx) if sum(lw.values()) < 1e-12 else None)
+    if degenerate:
+        stats["degenerate_zero_norm_history"] = stats.get("degenerate_zero_norm_history", 0) + 1
+        return [], None
     verdicts = {}
     law = {}
     mass = {"ok": 0.0, "bound": 0.0}
@@ -814,7 +819,10 @@ def check_shots(case, stats):
         if bad is None and ai != len(answers):
             bad = ("budget", "%d sampler calls were made, the program needs %d" % (len(answers), ai))
         if bad:
-            add(sig(case, bad[0]), "shots=%d: %s" % (N, bad[1]), path)
+            sub = bad[0]
+            if sub == "chain_rule" and not input_class(case).startswith("sequential"):
+                sub = "weights"  # the law of the first (only) draw is wrong: not a chain-rule matter
+            add(sig(case, sub), "shots=%d: %s" % (N, bad[1]), path)
             return
         expected = {}
         for rb in branches:
@@ -915,7 +923,13 @@ def check_shots(case, stats):
     out = [(s, m) for s, m, _ in verdicts.values()]
     prefixes = {json.dumps(core.jsonable(s), sort_keys=True): p for s, m, p in verdicts.values()}
     # the law of the histories at N = 1 is the joint outcome law (chain rule in sampling mode)
-    if N == 1 and not out and mass["ok"] > 0:
+    seen_pnm, ps_after_pnm = False, False
+    for op in case["ops"]:
+        seen_pnm = seen_pnm or op["k"] == "pnm"
+        ps_after_pnm = ps_after_pnm or (seen_pnm and op["k"] == "ps")
+    # (a post-selection AFTER a measurement is not judged: sampling never discards a shot, so the histories follow
+    # p(a) p(b | a, ps) while the exact tree carries p(a, ps, b); the property fixes neither)
+    if N == 1 and not out and mass["ok"] > 0 and not ps_after_pnm:
         leaves = R.run_tree(st0, rops)
         tot = sum(lf.weight for lf in leaves)
         ref = {lf.outcome: lf.weight / tot for lf in leaves if lf.weight > 0}
@@ -1026,7 +1040,7 @@ def _bounds(tier):
         tree_d4=dict(depth=4, max_meas=2, max_gates=2),
         part_d=4,
         shots=dict(depth=4, max_meas=3, max_gates=1, N={1: 4, 2: 4, 3: 3, 4: 3}, d=(2, 3)),
-        passive_real={2: dict(depth=3, max_meas=2, max_gates=1, N={1: 3, 2: 3}), 3: dict(depth=3, max_meas=2, max_gates=1, N={1: 3})},
+        passive_real={2: dict(depth=3, max_meas=2, max_gates=1, N={1: 3, 2: 2}), 3: dict(depth=3, max_meas=2, max_gates=1, N={1: 3})},
         inits={"pure": ("n11", "sup", "n21"), "fock": ("mix", "n11"), "passive": ("n11", "n2", "n21"), "fermi": ("f11", "fsup", "fnum")},
         inits_d4={"pure": ("n11", "sup"), "fock": ("mix",), "passive": ("n11", "n2"), "fermi": ("f11", "fsup")},
         shots_inits={"pure": ("n11", "sup"), "fock": ("mix",), "passive": ("n11", "n2"), "fermi": ("fsup", "fnum")},
@@ -1227,8 +1241,6 @@ def _gauss_instructions(case, blocks):
     if d >= 3:
         th, ph = angles(seed, 2)
         ins.append(pq.Beamsplitter(theta=th, phi=ph).on_modes(d - 1, 0))
-    if case.get("thermal"):
-        ins.append(pq.Attenuator(theta=0.4, mean_thermal_excitation=0.3).on_modes(0))
     for b in blocks:
         ins.append(_gauss_measurement(pq, case["kind"], seed).on_modes(*b))
     return ins
